@@ -336,7 +336,7 @@ def _magnitude_ok(v):
 # generator
 # ---------------------------------------------------------------------------
 
-FAMILIES_ALL = ['un', 'un', 'special', 'unp', 'bin', 'bin', 'bcast', 'binc', 'binc', 'pow', 'neg', 'get', 'get', 'T', 'reshape',
+FAMILIES_ALL = ['un', 'un', 'kink', 'special', 'unp', 'bin', 'bin', 'bcast', 'binc', 'binc', 'pow', 'neg', 'get', 'get', 'T', 'reshape',
                 'buf', 'set', 'set', 'rmw', 'rmw', 'sum', 'prod', 'trace', 'dot', 'dot', 'dotc', 'outer', 'inv', 'solve', 'det',
                 'logdet', 'qr', 'chol', 'eigh', 'svd', 'lu', 'fft', 'tile', 'diag', 'symvec']
 FAMILIES_FWD_ONLY = ['unfwd', 'minmax', 'tri', 'abs', 'expm', 'svdfull']
@@ -522,7 +522,7 @@ FIRST_INPUT = {'inv': 'regular', 'det': 'regular', 'logdet': 'posdet', 'solve': 
                'chol': 'square', 'eigh': 'gapsym', 'svd': 'svd', 'trace': 'matrix', 'T': 'matrix', 'diag': 'vecorsquare',
                'symvec': 'square', 'outer': 'vector', 'dot': 'vecormat', 'dotc': 'vecormat', 'prod': 'vector', 'tile': 'vecormat',
                'sum': 'vecormat', 'reshape': 'vecormat', 'get': 'vecormat', 'fft': 'vecormat', 'tri': 'matrix',
-               'expm': 'square', 'svdfull': 'svd', 'minmax': 'vecormat'}
+               'expm': 'square', 'svdfull': 'svd', 'minmax': 'vecormat', 'kink': 'awayzero', 'abs': 'awayzero'}
 
 
 @st.composite
@@ -554,6 +554,9 @@ def _special_input(draw, first, K, max_side):
             a = draw(gen.float_array((n, n), elems, sparse=False))
             mats.append(0.5 * sym + 0.5 * (a - a.T))      # m + m^T == sym
         return np.array(mats)
+    if kind == 'awayzero':
+        shape = draw(st.sampled_from([(), (n,), (2, n)]))
+        return draw(gen.float_array((K,) + shape, gen.interval_union((0.1, 2.0), (-2.0, -0.1)), sparse=False))
     if kind == 'square':
         return draw(gen.float_array((K, n, n), elems, sparse=False))
     if kind == 'matrix':
@@ -601,6 +604,22 @@ def _emit_family(draw, S, fam, allow_set_broadcast=True, allow_ndim_dot=False, a
             return False
         name = draw(st.sampled_from(['square', 'negative', 'square'] if poly else (UN_CHEAP if fam == 'un' else UN_SPECIAL)))
         return S.try_emit(['un', name, a])
+    if fam == 'kink':
+        # absolute / sign / clip away from their kinks; operands whose sign differs between probe points are preferred
+        which = draw(st.sampled_from(['absolute', 'sign', 'botched_clip', 'absolute']))
+        if which == 'botched_clip':
+            lo = draw(st.sampled_from([-1.0, -0.5, 0.0, 0.3]))
+            ins_of = lambda q: ['unp', 'botched_clip', [lo, lo + 1.0], q]
+        else:
+            ins_of = lambda q: ['un', which, q]
+        ok = lambda q: real(q) and all(precond(ins_of(q), S.regs[k]) for k in range(S.K))
+        mixed = lambda q: ok(q) and len(set(np.sign(np.ravel(S.regs[k][q]))[0] for k in range(S.K))) > 1
+        a = _pick(draw, S, mixed)
+        if a is None:
+            a = _pick(draw, S, ok)
+        if a is None:
+            return False
+        return S.try_emit(ins_of(a))
     if fam == 'unp':
         a = _pick(draw, S, real)
         if a is None:
